@@ -7,7 +7,7 @@
    hll_keys lists the keys at the leaves (n-gram operations contribute their windows). *)
 From Coq Require Import ZArith List.
 From Sketchnu Require Import Machine Consts Hashes Ngram Hll HllProofs.
-From Sketchnu Require Kernels KernelTie.
+From Sketchnu Require KernelsHll KernelTieHll.
 Import ListNotations.
 Open Scope Z_scope.
 
@@ -19,8 +19,8 @@ Print Assumptions C02_nlz64_spec.
 
 (* the precision range enforced by the constructor, as read from the source on this run *)
 (* _n_leading_zeros64 as regenerated from the source AST on this run is the modelled function *)
-Theorem C02_nlz64_source_tie : forall x, Kernels.gen_n_leading_zeros64 x = nlz64 x.
-Proof. exact KernelTie.tie_nlz64. Qed.
+Theorem C02_nlz64_source_tie : forall x, KernelsHll.gen_n_leading_zeros64 x = nlz64 x.
+Proof. exact KernelTieHll.tie_nlz64. Qed.
 Print Assumptions C02_nlz64_source_tie.
 
 Theorem C02_p_range : hll_p_min = 7 /\ hll_p_max = 16 /\
